@@ -5,12 +5,15 @@ package capnp
 
 // vMsgRW builds a k-segment writable message: every segment has symbolic len <= cap, both
 // word-aligned, contents (including spare capacity) symbolic.
-func vMsgRW(k int) (*Message, []*Segment) {
+func vMsgRW(k int) (*Message, []*Segment) { return vMsgRWMax(k, vMaxSeg) }
+
+// vMsgRWMax: k segments of arbitrary length and capacity up to max bytes, arbitrary contents
+func vMsgRWMax(k int, max int) (*Message, []*Segment) {
 	bufs := make([][]byte, k)
 	for i := 0; i < k; i++ {
 		n := vNondetInt()
 		c := vNondetInt()
-		vAssume(n >= 0 && n <= c && c <= vMaxSeg && n%8 == 0 && c%8 == 0)
+		vAssume(n >= 0 && n <= c && c <= max && n%8 == 0 && c%8 == 0)
 		bufs[i] = vNondetBytesCap(n, c)
 	}
 	msg := &Message{Arena: MultiSegment(bufs)}
@@ -198,4 +201,43 @@ func VH_C04_alloc_multi() {
 		vAssume(int64(k) >= int64(addr) && int64(k) < segLen(s2))
 		vAssert(s2.data[k] == 0, "C05.alloc.multi.zeroed")
 	}
+}
+
+// a caller-supplied buffer whose CAPACITY is not a whole number of words (1..7 spare bytes at the
+// end): allocation never panics; the object lies inside the segment it is said to be in, padded to
+// words and zeroed, old content kept
+func VH_C04_alloc_odd_capacity() {
+	n := vNondetInt()
+	c := vNondetInt()
+	vAssume(n >= 0 && n <= c && c <= 1<<20 && n%8 == 0)
+	msg := &Message{Arena: SingleSegment(vNondetBytesCap(n, c))}
+	if vNondetBool() {
+		msg = &Message{Arena: MultiSegment([][]byte{vNondetBytesCap(n, c)})}
+	}
+	msg.ResetReadLimit(1 << 62)
+	seg, err := msg.Segment(0)
+	vAssume(err == nil)
+	sz := Size(vNondetU32())
+	vAssume(sz > 0 && uint64(sz) <= 64)
+	oldLen := segLen(seg)
+	j := vNondetInt()
+	vAssume(j >= 0 && int64(j) < oldLen)
+	old := seg.data[j]
+	vReach("entry")
+	s2, addr, err := alloc(seg, sz)
+	vReach("returned")
+	if err != nil {
+		return
+	}
+	vAssert(int64(addr)%8 == 0 && int64(addr)+pad8(int64(sz)) <= segLen(s2), "C04.alloc.odd.object-inside-its-segment")
+	if int64(addr)+pad8(int64(sz)) > segLen(s2) {
+		return
+	}
+	if s2 == seg || s2.id == 0 {
+		vAssert(int64(addr) >= oldLen, "C04.alloc.odd.disjoint-from-old-content")
+		vAssert(s2.data[j] == old, "C04.alloc.odd.old-content-kept")
+	}
+	k := vNondetInt()
+	vAssume(int64(k) >= int64(addr) && int64(k) < int64(addr)+pad8(int64(sz)))
+	vAssert(s2.data[k] == 0, "C05.alloc.odd.zeroed-including-padding")
 }
